@@ -12,6 +12,8 @@ mod storage;
 mod subcmds;
 mod types;
 mod utils;
+#[cfg(ckb_light_client_verif)]
+mod verif_hooks;
 mod verify;
 
 use config::AppConfig;
